@@ -21,6 +21,12 @@ pub enum Spec {
     /// a solver's outer loop: for each configuration in turn build an evaluator, take `take` showdowns, and
     /// drop it; one operation per configuration (many short-lived evaluators beside a long-lived one)
     Churn { cfgs: Vec<Config>, take: usize },
+    /// the caller looking at its own ranges (the ranges of `cfg`, shared with the evaluator actors of the group that
+    /// were built from them): text, rank pairs, leftovers, combos - four operations
+    Observer { cfg: Config },
+    /// like Eval without extra calls, but the iterator is DROPPED by an operation of its own after the first None (so
+    /// that "drained but still alive" and "dropped" are two states other actors can be scheduled between)
+    EvalDrop { cfg: Config, scope: (u8, u8, u8, u8) },
 }
 
 /// Moves a value to another thread even if its type does not (or no longer does) implement Send. Whether the
@@ -38,6 +44,8 @@ pub enum State {
     ParserFresh,
     ParserHas(HandRange, usize),
     ChurnAt(usize),
+    ObserverAt(usize),
+    Gone,
 }
 
 pub struct Actor {
@@ -62,10 +70,12 @@ impl Actor {
     pub fn new(spec: &Spec) -> Actor {
         let state = match spec {
             Spec::Eval { .. } => State::EvalFresh,
+            Spec::EvalDrop { .. } => State::EvalFresh,
             Spec::Abandon { .. } => State::EvalFresh,
             Spec::Parser { .. } => State::ParserFresh,
             Spec::BadBoard { .. } => State::ParserFresh,
             Spec::Churn { .. } => State::ChurnAt(0),
+            Spec::Observer { .. } => State::ObserverAt(0),
         };
         Actor { spec: spec.clone(), state, done_nones: 0, shared: None }
     }
@@ -79,7 +89,7 @@ impl Actor {
             .iter()
             .map(|sp| {
                 let mut a = Actor::new(sp);
-                if let Spec::Eval { cfg, .. } | Spec::Abandon { cfg, .. } = sp {
+                if let Spec::Eval { cfg, .. } | Spec::Abandon { cfg, .. } | Spec::Observer { cfg } | Spec::EvalDrop { cfg, .. } = sp {
                     if cfg.label.starts_with("shared ") {
                         let key = format!("{:?}", cfg.ranges);
                         let arc = match pool.iter().find(|(k, _)| *k == key) {
@@ -102,7 +112,7 @@ impl Actor {
     pub fn step(&mut self) -> String {
         let st = std::mem::replace(&mut self.state, State::EvalFresh);
         match (st, &self.spec) {
-            (State::EvalFresh, Spec::Eval { cfg, scope, .. }) | (State::EvalFresh, Spec::Abandon { cfg, scope, .. }) => {
+            (State::EvalFresh, Spec::Eval { cfg, scope, .. }) | (State::EvalFresh, Spec::Abandon { cfg, scope, .. }) | (State::EvalFresh, Spec::EvalDrop { cfg, scope }) => {
                 let mut ev = match &self.shared {
                     Some(r) => espada::evaluator::FlopExhaustiveEvaluator::new(&board_opt(&cfg.flop), r),
                     None => cfg.evaluator(),
@@ -114,6 +124,11 @@ impl Actor {
             (State::EvalBuilt(ev), _) => {
                 self.state = State::EvalRunning(ev.into_iter());
                 "iterating".to_string()
+            }
+            (State::EvalRunning(it), Spec::EvalDrop { .. }) if self.done_nones >= 1 => {
+                drop(it);
+                self.state = State::Gone;
+                "dropped".to_string()
             }
             (State::EvalRunning(mut it), _) => {
                 let o = match it.next() {
@@ -182,6 +197,41 @@ impl Actor {
                 self.state = State::ChurnAt(k + 1);
                 out.join(" ; ")
             }
+            (State::ObserverAt(k), Spec::Observer { cfg }) => {
+                let own;
+                let ranges: &Vec<HandRange> = match &self.shared {
+                    Some(r) => r,
+                    None => {
+                        own = cfg.hand_ranges();
+                        &own
+                    }
+                };
+                let o = match k % 4 {
+                    0 | 3 => ranges.iter().map(|r| r.to_string()).collect::<Vec<_>>().join(" / "),
+                    1 => ranges
+                        .iter()
+                        .map(|r| {
+                            let mut v: Vec<String> = r.rank_pairs().iter().map(|(k, w)| format!("{}:{}", k, w)).collect();
+                            v.sort();
+                            let mut o: Vec<String> = r.orphan_card_pairs().iter().map(|(k, w)| format!("{}:{}", k, w)).collect();
+                            o.sort();
+                            format!("{} + {}", v.join(","), o.join(","))
+                        })
+                        .collect::<Vec<_>>()
+                        .join(" / "),
+                    _ => ranges
+                        .iter()
+                        .map(|r| {
+                            let mut v: Vec<String> = r.into_iter().map(|(k, w)| format!("{}:{}", k, w)).collect();
+                            v.sort();
+                            format!("{} combos {}", r.card_pairs().len(), v.join(","))
+                        })
+                        .collect::<Vec<_>>()
+                        .join(" / "),
+                };
+                self.state = State::ObserverAt(k + 1);
+                o
+            }
             _ => unreachable!("actor state does not match its spec"),
         }
     }
@@ -229,6 +279,25 @@ pub fn solo(spec: &Spec) -> Vec<String> {
                 out.push(a.step());
             }
         }
+        Spec::Observer { .. } => {
+            for _ in 0..4 {
+                out.push(a.step());
+            }
+        }
+        Spec::EvalDrop { .. } => {
+            out.push(a.step());
+            out.push(a.step());
+            loop {
+                let o = a.step();
+                let none = o == "None";
+                out.push(o);
+                if none {
+                    break;
+                }
+                assert!(out.len() < 10_000, "solo run does not end");
+            }
+            out.push(a.step());
+        }
     }
     out
 }
@@ -255,6 +324,22 @@ pub fn shared(spec: Spec) -> Spec {
     }
 }
 
+/// the caller's view of the (shared) ranges of an evaluator actor
+pub fn observer_of(spec: Spec) -> Spec {
+    match spec {
+        Spec::Eval { cfg, .. } => Spec::Observer { cfg },
+        o => o,
+    }
+}
+
+/// the same evaluator program ending with an explicit drop of the iterator
+pub fn drop_spec(spec: Spec) -> Spec {
+    match spec {
+        Spec::Eval { cfg, scope, .. } => Spec::EvalDrop { cfg, scope },
+        o => o,
+    }
+}
+
 pub fn abandon_spec(flop: [&str; 3], ranges: &[&[(&str, f32)]], scope: (u8, u8, u8, u8), take: usize) -> Spec {
     match eval_spec(flop, ranges, scope, 0) {
         Spec::Eval { cfg, scope, .. } => Spec::Abandon { cfg, scope, take },
@@ -277,14 +362,49 @@ pub fn churn_spec(n: usize, ranges: &[&[(&str, f32)]], take: usize) -> Spec {
     Spec::Churn { cfgs, take }
 }
 
+/// like churn_spec but with up to 17,296 distinct flops (every `stride`-th 3-subset, in lexicographic order, of the
+/// cards the ranges do not use)
+pub fn churn_spec_many(n: usize, stride: usize, ranges: &[&[(&str, f32)]], take: usize) -> Spec {
+    let rs: Vec<Vec<(Combo, f32)>> = ranges.iter().map(|r| r.iter().map(|(t, w)| (Combo::new(c(&t[0..2]), c(&t[2..4])), *w)).collect()).collect();
+    let used: Vec<u8> = rs.iter().flatten().flat_map(|(cb, _)| [cb.0, cb.1]).collect();
+    let free: Vec<u8> = (0..52u8).filter(|x| !used.contains(x)).collect();
+    let mut cfgs = vec![];
+    let mut count = 0usize;
+    'outer: for a in 0..free.len() {
+        for b in (a + 1)..free.len() {
+            for d in (b + 1)..free.len() {
+                count += 1;
+                if count % stride != 0 {
+                    continue;
+                }
+                cfgs.push(Config { flop: [free[a], free[b], free[d]], ranges: rs.clone(), label: Config::describe_ranges(&rs) });
+                if cfgs.len() == n {
+                    break 'outer;
+                }
+            }
+        }
+    }
+    Spec::Churn { cfgs, take }
+}
+
 pub fn describe(spec: &Spec) -> String {
     match spec {
         Spec::Eval { cfg, scope, .. } => format!("eval[{} scope={:?}]", cfg.key(), scope),
         Spec::Abandon { cfg, scope, take } => format!("abandon-after-{}[{} scope={:?}]", take, cfg.key(), scope),
         Spec::Parser { text } => format!("parser[{}]", text),
         Spec::BadBoard { cards } => format!("bad-board[{}]", cards_text(cards)),
+        Spec::EvalDrop { cfg, scope } => format!("eval-then-drop[{} scope={:?}]", cfg.key(), scope),
+        Spec::Observer { cfg } => format!("observer of the caller's ranges [{}]", cfg.label),
         Spec::Churn { cfgs, take } => format!("churn[{} evaluators on flops {}.., {} showdowns each, then dropped]", cfgs.len(), cfgs.iter().take(3).map(|c| cards_text(&c.flop)).collect::<Vec<_>>().join("/"), take),
     }
+}
+
+/// a long-lived evaluator and a solver loop over `n` distinct flops (see the long-churn sub-check of C15)
+pub fn long_churn_specs(n: usize) -> Vec<Spec> {
+    let r4: &[(&str, f32)] = &[("7s7h", 1.0)];
+    let r5: &[(&str, f32)] = &[("QcQd", 0.5), ("5d5h", 1.0)];
+    let r6: &[(&str, f32)] = &[("JdTh", 1.0), ("9c9d", 0.5)];
+    vec![eval_spec(["Qs", "8d", "2h"], &[r4, r5], (0, 1, 0, 5), 1), churn_spec_many(n, 7, &[r6], 2)]
 }
 
 /// actor groups that are forced to collide
@@ -345,6 +465,13 @@ pub fn groups() -> Vec<(&'static str, Vec<Spec>)> {
         // of a combo in the range; the scope lies where neither deck blocks any combo): what an evaluator does to
         // "its" ranges must not reach the caller's or a sibling's
         ("shared-ranges-other-flops", vec![shared(eval_spec(["As", "2d", "3c"], &[r9, r8], (30, 31, 30, 33), 1)), shared(eval_spec(["Th", "9h", "2s"], &[r9, r8], (30, 31, 30, 33), 1))]),
+        // ... and the caller itself keeps looking at those ranges (text, rank pairs, leftovers, combos) while the evaluators
+        // built from them run
+        ("shared-ranges-observed", vec![shared(eval_spec(["As", "2d", "3c"], &[r9, r8], (30, 31, 30, 32), 0)), observer_of(shared(eval_spec(["As", "2d", "3c"], &[r9, r8], (30, 31, 30, 32), 0))), shared(eval_spec(["Th", "9h", "2s"], &[r9, r8], (30, 31, 30, 32), 0))]),
+        // an evaluator that is drained, stays alive for a while and is then dropped (an operation of its own), while two
+        // others with multi-combo ranges are created and advanced around those two moments (resources handed back at
+        // exhaustion AND at drop)
+        ("drained-then-dropped", vec![drop_spec(eval_spec(f1, &[r3, r5], (0, 1, 0, 2), 0)), eval_spec(f1, &[r3, r5], (0, 1, 0, 2), 0), eval_spec(f1, &[r5, r3], (0, 1, 0, 2), 0)]),
         // three evaluators, 6 operations each
         ("three-evaluators", vec![eval_spec(f1, &[r1], (0, 1, 0, 4), 1), eval_spec(f1, &[r1], (0, 1, 0, 4), 1), eval_spec(f2, &[r3], (47, 48, 48, 49), 3)]),
         // four evaluators, 3-4 operations each
